@@ -72,6 +72,9 @@ def permute_sets(rng, spec):
 def gen_case(seed, idx, tier="quick"):
     rng = engine.rng_for(seed, PROP, idx)
     cfg = TIERS[tier]
+    if idx % 250 == 0:
+        # the hand-written collision table (different contents made of the same numbers), in a node with a seed-chosen hash seed
+        return {"collision_probes": True, "hs_a": rng.choice(cfg["node_seeds"])}
     quals = dict(keys=QUAL_KEYS, vals=QUAL_VALS, max_keys=3, p_none=0.25, typed_p=0.07)
     spec = specs.gen_collection(rng, L=rng.choice([40, 90, 200, 300]), n_genes=rng.randint(0, 3), n_fcs=rng.choice([0, 1, 1, 2]),
                                 quals=quals, gene_kw=dict(max_tx=3, same_strand=rng.random() < 0.7), with_n=rng.random() < 0.1)
@@ -93,6 +96,18 @@ def gen_case(seed, idx, tier="quick"):
         for t in g["transcripts"]:
             if rng.random() < 0.1:
                 t["is_primary_tx"] = rng.choice([True, False])
+    for c in spec["feature_collections"]:
+        for f in c["feature_intervals"]:
+            a, d = f["interval_starts"][0], f["interval_ends"][-1]
+            if d - a >= 6 and rng.random() < 0.1:
+                # a block nested inside another one (blocks are a multiset of intervals: (a,d)+(b,c) is not (a,c)+(b,d))
+                b = rng.randint(a + 1, d - 3)
+                cc = rng.randint(b + 1, d - 1)
+                f["interval_starts"], f["interval_ends"] = [a, b], [d, cc]
+    if rng.random() < 0.15:
+        # the annotation calls its sequence by another name than the sequence object it was placed on does
+        # (annotation says chr1, the chromosome / chunk was cut from accession NC_...)
+        par["genome"]["id"] = rng.choice(["NC_000001.11", "contig_7", "CHR1"])
     seeds = cfg["node_seeds"]
     a = rng.choice(seeds)
     b = rng.choice([s for s in seeds if s != a] or seeds) if rng.random() < 0.9 else a
@@ -214,7 +229,12 @@ def gen_sensitivity(rng, spec):
                 kind = None
     elif path[0] == "feature_collections":
         kind = rng.choice(["end", "strand"])
-        if kind == "end":
+        st, en = iv["interval_starts"], iv["interval_ends"]
+        if len(st) == 2 and st[0] < st[1] and en[1] < en[0]:
+            # nested blocks: exchange the two ends (same numbers, other blocks)
+            kind = "swap_ends_of_nested_blocks"
+            iv["interval_ends"] = [en[1], en[0]]
+        elif kind == "end":
             if iv["interval_ends"][-1] < L - 1:
                 iv["interval_ends"][-1] += 1
             else:
@@ -567,6 +587,61 @@ def h_guids(req):
     return {"guids": guid_tree(coll)}
 
 
+# Hand-written pairs of DIFFERENT contents that re-use the same numbers / symbols in other places: what a digest that
+# sorts, concatenates without separators or drops a field cannot tell apart.  (class, kwargs A, kwargs B, label)
+COLLISION_PROBES = [
+    ("VariantInterval", dict(start=1, end=123, sequence="A", variant_type="deletion"), dict(start=11, end=23, sequence="A", variant_type="deletion"),
+     "start_end_digit_shift"),
+    ("VariantInterval", dict(start=2, end=34, sequence="A", variant_type="deletion"), dict(start=23, end=24, sequence="A", variant_type="SNV"),
+     "start_end_digit_shift_other_type"),
+    ("FeatureInterval", dict(interval_starts=[10, 20], interval_ends=[50, 30], strand="PLUS"), dict(interval_starts=[10, 20], interval_ends=[30, 50], strand="PLUS"),
+     "nested_block_ends_exchanged"),
+    ("FeatureInterval", dict(interval_starts=[1, 12], interval_ends=[3, 14], strand="PLUS"), dict(interval_starts=[1], interval_ends=[14], strand="PLUS"),
+     "two_blocks_vs_span"),
+    ("FeatureInterval", dict(interval_starts=[5], interval_ends=[9], strand="PLUS"), dict(interval_starts=[5], interval_ends=[9], strand="MINUS"), "strand_single_block"),
+    ("TranscriptInterval", dict(exon_starts=[10, 20], exon_ends=[50, 30], strand="PLUS"), dict(exon_starts=[10, 20], exon_ends=[30, 50], strand="PLUS"),
+     "nested_exon_ends_exchanged"),
+    ("TranscriptInterval", dict(exon_starts=[0], exon_ends=[30], strand="PLUS", cds_starts=[3], cds_ends=[27], cds_frames=["ZERO"]),
+     dict(exon_starts=[0], exon_ends=[30], strand="PLUS", cds_starts=[3], cds_ends=[27], cds_frames=["ONE"]), "start_frame"),
+    ("TranscriptInterval", dict(exon_starts=[0, 20], exon_ends=[10, 30], strand="PLUS", cds_starts=[3, 20], cds_ends=[10, 27], cds_frames=["ZERO", "ONE"]),
+     dict(exon_starts=[0, 20], exon_ends=[10, 30], strand="PLUS", cds_starts=[3, 20], cds_ends=[10, 27], cds_frames=["ZERO", "TWO"]), "frame_of_second_block"),
+    ("TranscriptInterval", dict(exon_starts=[0, 20], exon_ends=[10, 30], strand="PLUS", cds_starts=[3, 20], cds_ends=[10, 27], cds_frames=["ZERO", "ONE"]),
+     dict(exon_starts=[0, 20], exon_ends=[10, 30], strand="PLUS", cds_starts=[3, 21], cds_ends=[10, 27], cds_frames=["ZERO", "ONE"]), "internal_cds_boundary"),
+    ("CDSInterval", dict(cds_starts=[0, 20], cds_ends=[10, 30], strand="MINUS", cds_frames=["ONE", "ZERO"]),
+     dict(cds_starts=[0, 20], cds_ends=[10, 30], strand="MINUS", cds_frames=["ZERO", "ONE"]), "frames_exchanged"),
+]
+
+
+def h_collisions(req):
+    from inscripta.biocantor.gene.variants import VariantInterval
+    from inscripta.biocantor.gene.feature import FeatureInterval
+    from inscripta.biocantor.gene.transcript import TranscriptInterval
+    from inscripta.biocantor.gene.cds import CDSInterval
+    from inscripta.biocantor.gene.cds_frame import CDSFrame
+    from inscripta.biocantor.location.strand import Strand
+
+    def make(cls, kw):
+        kw = dict(kw)
+        if "strand" in kw:
+            kw["strand"] = Strand[kw["strand"]]
+        if "cds_frames" in kw:
+            frames = [CDSFrame[x] for x in kw.pop("cds_frames")]
+            if cls == "CDSInterval":
+                kw["frames_or_phases"] = frames
+            else:
+                kw["cds_frames"] = frames
+        return {"VariantInterval": VariantInterval, "FeatureInterval": FeatureInterval, "TranscriptInterval": TranscriptInterval, "CDSInterval": CDSInterval}[cls](**kw)
+
+    out = []
+    for cls, a, b, label in COLLISION_PROBES:
+        try:
+            oa, ob = make(cls, a), make(cls, b)
+            out.append({"cls": cls, "label": label, "same_guid": oa.guid == ob.guid, "same_content": oa.to_dict() == ob.to_dict()})
+        except Exception as e:
+            out.append({"cls": cls, "label": label, "error": type(e).__name__})
+    return {"probes": out}
+
+
 # ---------------------------------------------------------------------------------------------------------------
 # coordinator side
 
@@ -670,6 +745,12 @@ def sig_key(f):
 
 def run_case(case):
     nd = node.nodes()
+    if case.get("collision_probes"):
+        r = nd.call(case["hs_a"], {"op": "c08.collisions"})
+        fs = [{"inv": "guid_sensitivity", "form": "probe", "cls": p_["cls"], "what": "different_content_same_identifier:" + p_["label"]}
+              for p_ in r["probes"] if p_.get("same_guid") and not p_.get("same_content")]
+        fs += [{"inv": "guid_sensitivity", "form": "probe", "cls": p_["cls"], "what": "probe_raise:" + p_["error"] + ":" + p_["label"]} for p_ in r["probes"] if "error" in p_]
+        return fs, {"collision_probe_pairs": len(r["probes"])}, engine.plan_digest(r)
     call_a = nd.call_fresh if case.get("fresh") else nd.call
     prod = nd.call(case["hs_a"], {"op": "c08.produce", "spec": case["spec_a"], "warm": case["warm"], "derive": case.get("derive")})
     if "build_error" in prod:
@@ -893,8 +974,8 @@ def aggregate(batches, tier, seed, t0):
 
 def evidence(agg, tier, seed, wall, batches):
     st = agg["stats"]
-    case = gen_case(seed, 0, tier)
-    sample = {"run": 0, "producer_hashseed": case["hs_a"], "consumer_hashseed": case["hs_b"], "warm": case["warm"],
+    case = gen_case(seed, 1, tier)
+    sample = {"run": 1, "producer_hashseed": case["hs_a"], "consumer_hashseed": case["hs_b"], "warm": case["warm"],
               "spec_a(genes/fcs/vcs)": [len(case["spec_a"]["genes"]), len(case["spec_a"]["feature_collections"]), len(case["spec_a"].get("variant_collections") or [])],
               "parent": case["spec_a"]["parent"]["mode"], "first_gene_qualifiers_producer_order": (case["spec_a"]["genes"][0].get("qualifiers") if case["spec_a"]["genes"] else None),
               "first_gene_qualifiers_consumer_order": (case["spec_b"]["genes"][0].get("qualifiers") if case["spec_b"]["genes"] else None),
@@ -922,6 +1003,7 @@ def evidence(agg, tier, seed, wall, batches):
             "episodes_where_set_iteration_order_really_differed_between_nodes": st["set_order_differed"],
             "forms_loaded": st["forms_loaded"], "forms_total": st["forms_total"], "child_objects_serialised": st["children"],
             "episodes_with_variants": st["has_variants"], "sensitivity_probes": st["sensitivity_probes"],
+            "hand_written_collision_pairs_checked(different content made of the same numbers)": st["collision_probe_pairs"],
             "sensitivity_probe_invalid_spec": st["sensitivity_invalid"],
             "episodes_skipped_because_the_constructor_refused_the_generated_collection": st["invalid_spec"],
             "parent_modes": {k[len("parent_mode_"):]: v for k, v in st.items() if k.startswith("parent_mode_")},
